@@ -357,7 +357,8 @@ pub trait I64Ops {
     fn i64_convolution_by_const(dst: &mut [i64], dst_size: usize, offset: usize, a: &[i64], a_size: usize, b: &[i64]) {
         assert!(a_size > 0);
 
-        for k in (0..dst_size - 1).step_by(2) {
+        // dst_size may be 0 (the whole product lies below cnv_offset): nothing to compute
+        for k in (0..dst_size.saturating_sub(1)).step_by(2) {
             Self::i64_convolution_by_const_2coeffs(k + offset, as_arr_i64_mut(&mut dst[8 * k..]), a, a_size, b);
         }
 
